@@ -18,6 +18,9 @@ build_translator() {
     ./translator/translator -in $REPO/types/keys.go -out build/KeysGen.v.new
     if ! cmp -s build/KeysGen.v.new coq/gen/KeysGen.v; then mkdir -p coq/gen; cp build/KeysGen.v.new coq/gen/KeysGen.v; fi
   fi
+  if [ -f translator/census/main.go ]; then
+    (cd translator && go build -o census/census ./census )   # C20 census tie, run by tools/census.sh
+  fi
 }
 
 build_coq() {
